@@ -4,6 +4,8 @@ import (
 	"context"
 	"errors"
 	"fmt"
+	"github.com/fullstorydev/grpchan/inprocgrpc"
+	"google.golang.org/grpc"
 	"io"
 	"math/rand"
 	"os"
@@ -211,6 +213,19 @@ func cancelOracle(run *Run, mode string, tEnd int64, c *Carrier) []cancelVerdict
 			case realStatus(e.Err):
 			default:
 				add("unary/wrong-code", fmt.Sprintf("Invoke returned %v after %s; want code %v or the handler's real status", e.Err, mode, want))
+			}
+		case "newstream":
+			// a stream opened on a context that has already ended may be refused at once: with a status then
+			if e.Err != nil && !e.Call {
+				st, ok := status.FromError(e.Err)
+				switch {
+				case !ok:
+					add("stream/non-status-error", fmt.Sprintf("NewStream returned a non-status error for a context that had ended: %v (%T)", e.Err, e.Err))
+				case st.Code() == want:
+				case realStatus(e.Err):
+				default:
+					add("stream/wrong-code", fmt.Sprintf("NewStream returned %v after %s; want code %v", e.Err, mode, want))
+				}
 			}
 		case "recv":
 			if e.Err == nil {
@@ -454,6 +469,7 @@ func (b *gatedBody) Close() error { return nil }
 func runC04Extra(e *core.Env) {
 	cs := stdCarriers()
 	defer cs.Close()
+	runC04NoMetadata(e)
 	e.Cases("handler-ctx-error", e.N(60, 600), func(i int, r *rand.Rand) {
 		kind := Kind(i % 4)
 		for _, c := range cs.list {
@@ -801,6 +817,69 @@ func runC04(e *core.Env, nScripts, maxHooks int) {
 		}
 		if i < 2 {
 			e.Sample(map[string]any{"carrier": c.Name, "kind": kind.String(), "handler_mode": hmode, "script": base})
+		}
+	})
+}
+
+// runC04NoMetadata: a caller whose context has a deadline and no outgoing metadata at all, calling a streaming
+// method whose handler neither reads nor writes but waits for its context. The handler's context ends with the
+// caller's deadline (over HTTP the request body is still open then, so nothing but the transported deadline can
+// tell the server). The handler waits 8 s (more than thirty times the deadline) before it gives up.
+func runC04NoMetadata(e *core.Env) {
+	type probe struct {
+		started     chan struct{}
+		ended       chan bool
+		hadDeadline bool
+	}
+	var cur atomic.Pointer[probe]
+	desc := &grpc.ServiceDesc{ServiceName: "c04.Bare", HandlerType: (*interface{})(nil), Streams: []grpc.StreamDesc{{StreamName: "S", ClientStreams: true, ServerStreams: true,
+		Handler: func(_ interface{}, ss grpc.ServerStream) error {
+			p := cur.Load()
+			_, p.hadDeadline = ss.Context().Deadline()
+			close(p.started)
+			select {
+			case <-ss.Context().Done():
+				p.ended <- true
+			case <-time.After(8 * time.Second):
+				p.ended <- false
+			}
+			return nil
+		}}}}
+	inp := &inprocgrpc.Channel{}
+	inp.RegisterService(desc, struct{}{})
+	srv := httpgrpc.NewServer()
+	srv.RegisterService(desc, struct{}{})
+	hc := httpCarrier("http-bare", nil, srv, "/", false, false)
+	defer hc.Close()
+	chans := []struct {
+		name string
+		cc   grpc.ClientConnInterface
+	}{{"inproc", inp}, {"http-server", hc.CC}}
+	e.Cases("no-metadata-deadline", e.N(8, 60), func(i int, r *rand.Rand) {
+		c := chans[i%2]
+		p := &probe{started: make(chan struct{}), ended: make(chan bool, 1)}
+		cur.Store(p)
+		ctx, cancel := context.WithTimeout(context.Background(), time.Duration(150+r.Intn(100))*time.Millisecond)
+		defer cancel()
+		st, err := c.cc.NewStream(ctx, &desc.Streams[0], "/c04.Bare/S")
+		var rerr error
+		if err == nil {
+			rerr = st.RecvMsg(new(tpb.Message))
+		}
+		select {
+		case <-p.started:
+		case <-time.After(watchdog):
+			e.Inconclusive("C04 no-metadata-deadline %s: handler never started (NewStream: %v, RecvMsg: %v)", c.name, err, rerr)
+			return
+		}
+		ended := <-p.ended
+		e.Eval("no-metadata-deadline|"+c.name, true)
+		w := map[string]any{"carrier": c.name, "newstream": fmt.Sprint(err), "recv": fmt.Sprint(rerr), "handler_had_deadline": p.hadDeadline}
+		if !ended {
+			e.Violate(c.name+"/stream/handler-ctx-not-cancelled/no-metadata", fmt.Sprintf("the caller's context (a deadline, no outgoing metadata) ended; the handler's context was still alive 8 s later (it had a deadline: %v)", p.hadDeadline), w)
+		}
+		if err == nil && status.Code(rerr) != codes.DeadlineExceeded {
+			e.Violate(c.name+"/stream/no-metadata/wrong-code", fmt.Sprintf("the pending receive returned %v when the deadline passed", rerr), w)
 		}
 	})
 }
